@@ -83,15 +83,24 @@ def check_deb(filename, *, options):
     ignore_tags = set(options.ignore_tags)
     ignore_tags.add('unknown-file-type')
     with tempfile.TemporaryDirectory(prefix='i18nspector.deb.') as tmpdir:
-        if binary:
-            ipc.check_call(['dpkg-deb', '-x', filename, tmpdir])
-            real_root = os.path.join(tmpdir, '')
-        else:
-            real_root = os.path.join(tmpdir, 's', '')
-            ipc.check_call(
-                ['dpkg-source', '--no-copy', '--no-check', '-x', filename, real_root],
-                stdout=ipc.DEVNULL  # dpkg-source would be noisy without this...
-            )
+        try:
+            if binary:
+                ipc.check_call(
+                    ['dpkg-deb', '-x', filename, tmpdir],
+                    stderr=ipc.DEVNULL
+                )
+                real_root = os.path.join(tmpdir, '')
+            else:
+                real_root = os.path.join(tmpdir, 's', '')
+                ipc.check_call(
+                    ['dpkg-source', '--no-copy', '--no-check', '-x', filename, real_root],
+                    stdout=ipc.DEVNULL,  # dpkg-source would be noisy without this...
+                    stderr=ipc.DEVNULL
+                )
+        except ipc.CalledProcessError:
+            # not a package after all (or not a readable one):
+            # let the caller report it like any other file
+            raise UnsupportedFileType
         options = copy_options(options,
             ignore_tags=ignore_tags,
             fake_root=(real_root, os.path.join(filename, ''))
